@@ -3,6 +3,12 @@ C05 — the Safe-DS type text written by the generator (`typeStr`, model of `_cr
 the image of the API type under the documented structural mapping `Spec.typeText`, at every nesting
 depth and independently of the generator state, the API and the position; rendering never raises on
 renderable types and only adds TODO keys / imports.  Proof machinery: `StubGen.Proofs.TypeText`.
+
+Two hypotheses are new since the model followed the generator fixes (see (0) and (2) below):
+`tt_litOk` (the text is `Spec.typeText` unless a union of exactly one `Literal[…]` and `None` repeats a
+literal value — there the specification deduplicates and the generator does not) and
+`tt_seqImportable` (totality needs a qualified name on generic classes with arguments, which are now
+imported).  Unconditionally the text is `tt_typeText`.
 -/
 import StubGen.Proofs.TypeText
 
@@ -10,43 +16,101 @@ namespace StubGen.C05
 
 open StubGen
 
+/-! ### (0) the one place where generator and `Spec.typeText` part
+
+Since the literal members of a union are deduplicated, `Spec.typeText` deduplicates the literal values
+in *both* literal shortcuts of the union case; the generator does so only where several `Literal[…]`
+members are merged.  For a union of exactly one `Literal[…]` and `None` it prints the values as they
+are.  `tt_litOk t` (defined in `Proofs/TypeText.lean`) says that no such union with repeated literal
+values occurs in `t`; `tt_typeText` is `Spec.typeText` with the generator's behaviour at that place. -/
+
+private def tLitDup : AType := .union [.literal [.int 1, .int 1], .named "None" "builtins.None"]
+
+/-- counterexample to `typeStr_text` without the hypothesis `tt_litOk`: a renderable type on which
+    the generator and `Spec.typeText` differ -/
+example : (match typeStr ⟨{}, true⟩ tLitDup {} with
+    | .ok (s, _) => some s
+    | .error _ => none) = some "literal<1, 1, null>" := by decide
+example : Spec.typeText true tLitDup = "literal<1, null>" := by decide
+example : Spec.renderable tLitDup = true ∧ tt_litOk tLitDup = false := by decide
+example : tt_typeText true tLitDup = "literal<1, 1, null>" := by decide
+/-- a lone `Literal[1, 1]` is not deduplicated by either side -/
+example : Spec.typeText true (.literal [.int 1, .int 1]) = "literal<1, 1>" ∧
+    tt_litOk (.literal [.int 1, .int 1]) = true := by decide
+
+/-- `tt_litOk` on a union, spelled out: if the union consists of exactly one literal member and `None`,
+    the literal's values are pairwise distinct; and all members are `tt_litOk` -/
+theorem litOk_union (ts : List AType) :
+    tt_litOk (.union ts) = true ↔
+      ((ts.length == 2 && (ts.filter Spec.isLit).length == 1 && ts.any Spec.isNoneType) = true →
+        Spec.dedupLit ((ts.filter Spec.isLit).flatMap Spec.litsOf) = (ts.filter Spec.isLit).flatMap Spec.litsOf) ∧
+      tt_litOkL ts = true := by
+  rw [tt_litOk, Bool.and_eq_true, Bool.or_eq_true, Bool.not_eq_true', decide_eq_true_eq]
+  cases (ts.length == 2 && (ts.filter Spec.isLit).length == 1 && ts.any Spec.isNoneType) <;> simp
+
+/-- sufficient: every `Literal[…]` in the type lists pairwise distinct values -/
+theorem litOk_of_distinct_literals (t : AType) (h : tt_litNodup t = true) : tt_litOk t = true :=
+  tt_litOk_of_litNodup t h
+
+/-- on `tt_litOk` types the two texts agree -/
+theorem typeText_model_eq (safe : Bool) (t : AType) (hl : tt_litOk t = true) :
+    tt_typeText safe t = Spec.typeText safe t :=
+  tt_typeText_eq safe t hl
+
 /-- (1) compositional and position-independent: whenever the generator renders a type, the text is
-    `Spec.typeText` of the type and the naming flag — for every state, API and call site. -/
+    `tt_typeText` of the type and the naming flag — for every state, API and call site … -/
+theorem typeStr_text_model (env : Env) (t : AType) (st st' : St) (s : String)
+    (h : typeStr env t st = .ok (s, st')) : s = tt_typeText env.safe t :=
+  (tt_typeStr_gpost env t st s st' h).1
+
+/-- … which is `Spec.typeText` unless a one-literal-and-`None` union repeats a literal value
+    (statement changed: hypothesis `hl` is new, see the counterexample above). -/
 theorem typeStr_text (env : Env) (t : AType) (st st' : St) (s : String)
-    (h : typeStr env t st = .ok (s, st')) : s = Spec.typeText env.safe t :=
-  (typeStr_gpost env t st s st' h).1
+    (h : typeStr env t st = .ok (s, st')) (hl : tt_litOk t = true) : s = Spec.typeText env.safe t :=
+  (typeStr_gpost env t hl st s st' h).1
 
 theorem typeStrs_text (env : Env) (ts : List AType) (st st' : St) (r : List String)
-    (h : typeStrs env ts st = .ok (r, st')) : r = Spec.typeTexts env.safe ts :=
-  (typeStrs_gpost env ts st r st' h).1
+    (h : typeStrs env ts st = .ok (r, st')) (hl : tt_litOkL ts = true) : r = Spec.typeTexts env.safe ts :=
+  (typeStrs_gpost env ts hl st r st' h).1
 
 theorem typeStrsSkipLit_text (env : Env) (ts : List AType) (st st' : St) (r : List String)
-    (h : typeStrsSkipLit env ts st = .ok (r, st')) : r = Spec.nonLitTexts env.safe ts :=
-  (typeStrsSkipLit_gpost env ts st r st' h).1
+    (h : typeStrsSkipLit env ts st = .ok (r, st')) (hl : tt_litOkL ts = true) :
+    r = Spec.nonLitTexts env.safe ts :=
+  (typeStrsSkipLit_gpost env ts hl st r st' h).1
 
 theorem typeStrsNamed_text (env : Env) (pre : String) (i : Nat) (ts : List AType) (st st' : St)
-    (r : List String) (h : typeStrsNamed env pre i ts st = .ok (r, st')) :
+    (r : List String) (h : typeStrsNamed env pre i ts st = .ok (r, st')) (hl : tt_litOkL ts = true) :
     r = Spec.namedTexts env.safe pre i ts :=
-  (typeStrsNamed_gpost env ts pre i st r st' h).1
+  (typeStrsNamed_gpost env ts hl pre i st r st' h).1
 
 /-- position independence, spelled out: two successful renderings of the same type under the same
     naming flag agree, whatever the APIs, states and modules involved. -/
 theorem typeStr_position_independent (env env' : Env) (t : AType) (st st' st1 st1' : St) (s s' : String)
     (hsafe : env.safe = env'.safe)
     (h : typeStr env t st = .ok (s, st1)) (h' : typeStr env' t st' = .ok (s', st1')) : s = s' := by
-  rw [typeStr_text env t st st1 s h, typeStr_text env' t st' st1' s' h', hsafe]
+  rw [typeStr_text_model env t st st1 s h, typeStr_text_model env' t st' st1' s' h', hsafe]
 
 /-- (2) the `ValueError("Unexpected type")`, `IndexError` and `ValueError` (no import source) branches
-    are unreachable on renderable types. -/
-theorem typeStr_total (env : Env) (st : St) (t : AType) (hr : Spec.renderable t = true) :
-    ∃ s st', typeStr env t st = .ok (s, st') :=
-  typeStr_tot env t hr st
+    are unreachable on renderable types all of whose generic classes with type arguments have a
+    qualified name.  (Statement changed: `hq` is new.  The generator now imports the class of a
+    `namedSeq`, and `_add_to_imports("")` raises; `Spec.renderable` does not ask for a qualified name
+    there, see the example `namedSeq "C" "" [int]` below.) -/
+theorem typeStr_total (env : Env) (st : St) (t : AType) (hr : Spec.renderable t = true)
+    (hq : tt_seqImportable t = true) : ∃ s st', typeStr env t st = .ok (s, st') :=
+  typeStr_tot env t hr hq st
 
-/-- (1)+(2): on renderable types the generator writes exactly the specified text. -/
-theorem typeStr_renders_spec (env : Env) (st : St) (t : AType) (hr : Spec.renderable t = true) :
+/-- (1)+(2): on such types the generator writes exactly the text `tt_typeText` … -/
+theorem typeStr_renders_model (env : Env) (st : St) (t : AType) (hr : Spec.renderable t = true)
+    (hq : tt_seqImportable t = true) : ∃ st', typeStr env t st = .ok (tt_typeText env.safe t, st') := by
+  obtain ⟨s, st', h⟩ := typeStr_total env st t hr hq
+  exact ⟨st', by rw [← typeStr_text_model env t st st' s h]; exact h⟩
+
+/-- … that is, the specified text (on `tt_litOk` types). -/
+theorem typeStr_renders_spec (env : Env) (st : St) (t : AType) (hr : Spec.renderable t = true)
+    (hq : tt_seqImportable t = true) (hl : tt_litOk t = true) :
     ∃ st', typeStr env t st = .ok (Spec.typeText env.safe t, st') := by
-  obtain ⟨s, st', h⟩ := typeStr_total env st t hr
-  exact ⟨st', by rw [← typeStr_text env t st st' s h]; exact h⟩
+  obtain ⟨s, st', h⟩ := typeStr_total env st t hr hq
+  exact ⟨st', by rw [← typeStr_text env t st st' s h hl]; exact h⟩
 
 /-- (5) rendering a type only adds TODO keys, imports and outside-package classes; the emission log,
     the queued reexports, the class generics and the module ids are untouched. -/
@@ -56,7 +120,7 @@ theorem todos_imports_only_grow (env : Env) (t : AType) (st st' : St) (s : Strin
     st'.log = st.log ∧ st'.reexports = st.reexports ∧ st'.classGenerics = st.classGenerics ∧
     st'.moduleId = st.moduleId ∧ st'.reexportModuleId = st.reexportModuleId ∧
     st'.creatingReexport = st.creatingReexport :=
-  have g := (typeStr_gpost env t st s st' h).2
+  have g := (tt_typeStr_gpost env t st s st' h).2
   ⟨g.todos, g.imports, g.outside, g.log, g.reexports, g.classGenerics, g.moduleId,
    g.reexportModuleId, g.creatingReexport⟩
 
@@ -134,10 +198,16 @@ theorem builtins_mapped (safe : Bool) (q : String) :
     Spec.typeText safe (.named "None" q) = "Nothing?" :=
   ⟨rfl, rfl, rfl, rfl, rfl⟩
 
-/-- classes, enums and generic classes without arguments: their name -/
+/-- classes, enums and generic classes without arguments: their name, back-quoted when it is a
+    Safe-DS keyword (statement changed: was `= n`) -/
 theorem class_mapped (safe : Bool) (n q : String) (h : Spec.builtin n = none) :
-    Spec.typeText safe (.named n q) = n := by
+    Spec.typeText safe (.named n q) = escapeKeyword n := by
   rw [Spec.typeText, h]; rfl
+
+/-- … so for a name that is not a keyword it is the name itself (the former statement) -/
+theorem class_mapped_plain (safe : Bool) (n q : String) (h : Spec.builtin n = none)
+    (hk : Generated.keywords.contains n = false) : Spec.typeText safe (.named n q) = n := by
+  rw [class_mapped safe n q h, escapeKeyword, hk]; rfl
 
 theorem list_mapped (safe : Bool) (t : AType) (ts : List AType) :
     Spec.typeText safe (.list []) = "List<Any>" ∧
@@ -151,10 +221,12 @@ theorem set_mapped (safe : Bool) (t : AType) (ts : List AType) :
     Spec.typeText safe (.set (t :: ts)) = "Set<" ++ joinWith ", " (Spec.typeTexts safe (t :: ts)) ++ ">" :=
   ⟨rfl, rfl, rfl⟩
 
-/-- `Sequence[…]`, `Collection[…]`, generic classes with arguments -/
+/-- `Sequence[…]`, `Collection[…]`, generic classes with arguments (statement changed: the head is
+    `escapeKeyword n`, was `n`) -/
 theorem namedSeq_mapped (safe : Bool) (n q : String) (t : AType) (ts : List AType) :
-    Spec.typeText safe (.namedSeq n q []) = n ++ "<Any>" ∧
-    Spec.typeText safe (.namedSeq n q (t :: ts)) = n ++ "<" ++ joinWith ", " (Spec.typeTexts safe (t :: ts)) ++ ">" :=
+    Spec.typeText safe (.namedSeq n q []) = escapeKeyword n ++ "<Any>" ∧
+    Spec.typeText safe (.namedSeq n q (t :: ts)) =
+      escapeKeyword n ++ "<" ++ joinWith ", " (Spec.typeTexts safe (t :: ts)) ++ ">" :=
   ⟨rfl, rfl⟩
 
 theorem dict_mapped (safe : Bool) (k v : AType) :
@@ -201,13 +273,32 @@ theorem optional_mapped (safe : Bool) (T : AType) (hl : Spec.isLit T = false)
   · rfl
   · rw [List.mem_singleton.1 ht]; exact hl
 
-/-- `Optional[C]` for a class `C` -/
+/-- `Optional[C]` for a class `C` (statement changed: `escapeKeyword n ++ "?"`, was `n ++ "?"`) -/
 theorem optional_class_mapped (safe : Bool) (n q : String) (hb : Spec.builtin n = none)
     (hq : q ≠ "builtins.None") (hn : n ≠ "Nothing?") :
-    Spec.typeText safe (.union [.named n q, .named "None" "builtins.None"]) = n ++ "?" := by
+    Spec.typeText safe (.union [.named n q, .named "None" "builtins.None"]) = escapeKeyword n ++ "?" := by
   have h := (optional_mapped safe (.named n q) rfl (by simpa [Spec.nullableKind] using hq)
-    (by rw [class_mapped safe n q hb]; exact hn)).1
+    (by rw [class_mapped safe n q hb]; exact tt_escapeKeyword_ne_nothing n hn)).1
   rw [h, class_mapped safe n q hb]
+
+/-- several `Literal[…]` members of a union are merged into one `literal<…>` whose values are those of
+    the members without repetitions (first occurrences kept; `true` and `1` stay different) -/
+theorem merged_literals_dedup (l : List Lit) :
+    (Spec.dedupLit l).Nodup ∧ (∀ x, x ∈ Spec.dedupLit l ↔ x ∈ l) ∧ (Spec.dedupLit l).Sublist l ∧
+    (l.Nodup → Spec.dedupLit l = l) :=
+  ⟨tt_dedupLit_nodup l, tt_mem_dedupLit l, tt_dedupLit_sublist l, tt_dedupLit_of_nodup l⟩
+
+/-- the union case with at least two literal members (and not just `None` besides them) -/
+theorem union_literals_mapped (safe : Bool) (ts : List AType) (h2 : (ts.filter Spec.isLit).length ≥ 2)
+    (hn : ((ts.filter (fun t => !Spec.isLit t)).length == 1
+      && (ts.filter (fun t => !Spec.isLit t)).any Spec.isNoneType) = false) :
+    Spec.typeText safe (.union ts) =
+      Spec.unionText (Spec.nonLitTexts safe ts ++
+        ["literal<" ++ joinWith ", "
+          ((Spec.dedupLit ((ts.filter Spec.isLit).flatMap Spec.litsOf)).map Spec.litText) ++ ">"])
+        (ts.any Spec.nullableKind) := by
+  rw [typeText_union, if_pos h2, hn]
+  rfl
 
 /-- a union without literal members is the normalised union of the members' texts -/
 theorem union_mapped (safe : Bool) (ts : List AType) (h : ∀ t ∈ ts, Spec.isLit t = false) :
@@ -255,6 +346,11 @@ example : Spec.typeText true ex6 = "(param1: `from`) -> ()" := by decide
 /-- the hypotheses of `typeStr_total` / `typeStr_text` are satisfiable -/
 example : Spec.renderable ex1 = true ∧ Spec.renderable ex2 = true ∧ Spec.renderable ex3 = true ∧
     Spec.renderable ex4 = true ∧ Spec.renderable ex5 = true ∧ Spec.renderable ex6 = true := by decide
+example : tt_seqImportable ex1 = true ∧ tt_seqImportable ex2 = true ∧ tt_seqImportable ex3 = true ∧
+    tt_seqImportable ex4 = true ∧ tt_seqImportable ex5 = true ∧ tt_seqImportable ex6 = true := by decide
+example : tt_litOk ex1 = true ∧ tt_litOk ex2 = true ∧ tt_litOk ex3 = true ∧
+    tt_litOk ex4 = true ∧ tt_litOk ex5 = true ∧ tt_litOk ex6 = true := by decide
+example : tt_litNodup ex2 = true := by decide
 example : Spec.renderable (.list [.enum ["a"]]) = false := by decide
 /-- the generator itself, from two different states and under both flags -/
 example : text (typeStr (env1 true) ex1 {}) = some "Map<String, List<Int?>>" := by decide
@@ -271,6 +367,23 @@ example : (match typeStr (env1 true) ex5 st1 with
     (["variadic", "no set support"], ["a.b", "pkg.mod.my_class"], ["pkg.mod.my_class"]) := by decide
 example : text (typeStr (env1 true) (.list [.enum ["a"]]) {}) = none := by decide
 example : text (typeStr (env1 true) (.named "C" "") {}) = none := by decide
+/-- the hypothesis `tt_seqImportable` of `typeStr_total` is needed: a generic class with arguments and
+    no qualified name is `Spec.renderable`, and the generator raises on it -/
+example : Spec.renderable (.namedSeq "C" "" [tInt]) = true ∧ tt_seqImportable (.namedSeq "C" "" [tInt]) = false ∧
+    text (typeStr (env1 true) (.namedSeq "C" "" [tInt]) {}) = none := by decide
+/-- keyword-named classes are back-quoted, generic classes with arguments are imported, names without
+    a module path are not -/
+example : Spec.typeText true (.named "from" "pkg.mod.from") = "`from`" ∧
+    text (typeStr (env1 true) (.named "from" "pkg.mod.from") st1) = some "`from`" ∧
+    Spec.typeText true (.namedSeq "in" "pkg.in" [tInt, tInt]) = "`in`<Int, Int>" ∧
+    text (typeStr (env1 true) (.namedSeq "in" "pkg.in" [tInt, tInt]) st1) = some "`in`<Int, Int>" := by decide
+example : (match typeStr (env1 true) (.namedSeq "Sequence" "typing.Sequence" [tInt]) st1 with
+    | .ok (s, st') => (s, st'.todos, st'.imports, st'.outside)
+    | .error _ => ("", [], [], [])) =
+    ("Sequence<Int>", ["variadic"], ["a.b", "typing.Sequence"], ["typing.Sequence"]) := by decide
+example : (match typeStr (env1 true) (.named "C" "C") st1 with
+    | .ok (s, st') => (s, st'.imports, st'.outside)
+    | .error _ => ("", [], [])) = ("C", ["a.b"], []) := by decide
 /-- union normalisation on closed inputs -/
 example : Spec.unionText ["B", "Nothing?", "A", "B"] true = "union<A, B, Nothing?>" := by decide
 example : unionMembers ["B", "Nothing?", "A", "B"] = ["A", "B", "Nothing?"] := by decide
@@ -283,6 +396,13 @@ example : Spec.typeText true (.union [.typeVar "T", tNone]) = "union<T, Nothing?
     text (typeStr (env1 true) (.union [.typeVar "T", tNone]) st1) = some "union<T, Nothing?>" ∧
     Spec.typeText true (.union [.namedSeq "Sequence" "typing.Sequence" [tInt], tNone]) =
       "union<Sequence<Int>, Nothing?>" := by decide
+/-- merged literal members are deduplicated (`true` and `1` stay different) — specification and generator -/
+example : Spec.typeText true (.union [.literal [.int 1, .str "a"], .literal [.str "a", .int 2, .bool true], tInt])
+      = "union<Int, literal<1, \"a\", 2, true>>" ∧
+    text (typeStr (env1 true) (.union [.literal [.int 1, .str "a"], .literal [.str "a", .int 2, .bool true], tInt]) st1)
+      = some "union<Int, literal<1, \"a\", 2, true>>" ∧
+    text (typeStr (env1 true) (.union [.literal [.int 1, .str "a"], .literal [.str "a", .int 1], tNone]) st1)
+      = some "literal<1, \"a\", null>" := by decide
 /-- literal members keep their source order: permuting them changes the text -/
 example : Spec.typeText true (.union [.literal [.int 1], .literal [.str "a"], tInt]) = "union<Int, literal<1, \"a\">>" ∧
     Spec.typeText true (.union [.literal [.str "a"], .literal [.int 1], tInt]) = "union<Int, literal<\"a\", 1>>" := by
